@@ -13,6 +13,7 @@ CONSTANTS
   RemoveCancels = TRUE
   CycleSkipsLocked = TRUE
   OfferSkipsLocked = FALSE
+  OfferSkipsOccupied = TRUE
 INVARIANT TypeOK
 INVARIANT AtMostOneNegotiation
 INVARIANT SlotsTrackLive
